@@ -1,7 +1,7 @@
 (** C04 — property theorems (statements only; proofs by [exact]). *)
 From Coq Require Import ZArith List.
 Import ListNotations.
-From RlibV Require Import C04.Model C04.ProofsBasic.
+From RlibV Require Import C04.Model C04.ProofsBasic C04.ProofsState C04.ProofsHist.
 
 (** Shape, for every scalar type, every oracle and every object state (so also for binary64):
     an empty operand gives the empty product and leaves the object untouched; the product has
@@ -20,3 +20,28 @@ Theorem c04_shape : forall (F : Type) (ops : Ops F) (tw : nat -> nat -> F * F) (
   (forall (v : list (F * F)) k dest, length v = 2 ^ k ->
        snd (fft_inv_into ops tw s v dest) = zip_acc Z.add dest (snd (fft_inv ops tw s v))).
 Proof. exact shape_all. Qed.
+
+(** History independence (plan-table reuse through a stride), for every scalar type and every
+    oracle, hence for the binary64 instance itself, bit for bit: two objects in any reachable
+    states ([reach]: FFT::new() followed by any sequence of update_n to powers of two, which is
+    what every call does to the object, see [c04_reach_closed]) return the same product, add the
+    same product, add the same transform.  fft_inv_into reads max_n WITHOUT growing the object, so
+    there both objects must already be at least as large as the input. *)
+Theorem c04_history_independent : forall (F : Type) (ops : Ops F) (tw : nat -> nat -> F * F) (s s' : st (F := F)),
+  reach ops tw s -> reach ops tw s' ->
+  (forall a b, snd (multiply ops tw s a b) = snd (multiply ops tw s' a b)) /\
+  (forall a b res, snd (multiply_into ops tw s a b res) = snd (multiply_into ops tw s' a b res)) /\
+  (forall v n dest, (n = 0 \/ exists m, n = 2 ^ m) ->
+     snd (fft_into ops tw s v n dest) = snd (fft_into ops tw s' v n dest)) /\
+  (forall (v : list (F * F)) m dest, length v = 2 ^ m -> length v <= length (R s) -> length v <= length (R s') ->
+     snd (fft_inv_into ops tw s v dest) = snd (fft_inv_into ops tw s' v dest)).
+Proof. exact history_independent_all. Qed.
+
+(** every call leaves the object in a reachable state *)
+Theorem c04_reach_closed : forall (F : Type) (ops : Ops F) (tw : nat -> nat -> F * F) (s : st (F := F)),
+  reach ops tw s ->
+  (forall a b, reach ops tw (fst (multiply ops tw s a b))) /\
+  (forall a b res, reach ops tw (fst (multiply_into ops tw s a b res))) /\
+  (forall v n dest, (n = 0 \/ exists m, n = 2 ^ m) -> reach ops tw (fst (fft_into ops tw s v n dest))) /\
+  (forall (v : list (F * F)) m dest, length v = 2 ^ m -> reach ops tw (fst (fft_inv_into ops tw s v dest))).
+Proof. exact reach_closed_all. Qed.
